@@ -2,9 +2,9 @@ SPECIFICATION Spec
 CONSTANTS
   NRot = 3
   K = 1
-  M = 0
+  M = 1
   Variant = "as_coded"
-  Direct = FALSE
+  Direct = TRUE
   GenHist = FALSE
 INVARIANT C07_LimitsAtShutdown
 INVARIANT C07_NotRemovedEarly
